@@ -175,8 +175,28 @@ class C07(object):
                             "o11": 1, "o12": 0, "o21": 0, "o22": rnd.choice([1, -1])}
             desc["tol"] = rnd.choice([0.1, 0.25, 0.4, 0.5])
             desc["basis_peaks"] = [[rnd.randrange(max(n, 1)) for _ in range(3)] for _ in range(ngr)]
+            # the grains move between two assignments (refinement, set_ubi), as in the makemap sequence
+            # refine -> save -> assign again: the second assignment must use the grains as they are then
+            if rnd.random() < 0.5:
+                desc["assign_history"] = {"kind": rnd.choice(["perturbed", "perturbed", "other"]), "seed": rnd.getrandbits(32),
+                                          "how": rnd.choice(["set_ubi", "set_ubi", "new_grain"])}
         else:
-            desc["gv"] = make_peaks(rnd, g, ubis, n).tolist()
+            gv = make_peaks(rnd, g, ubis, n)
+            if n and rnd.random() < 0.15:
+                # peaks without a usable g-vector (failed spatial correction: NaN; division by zero: inf): no grain indexes them
+                for _ in range(rnd.randint(1, 4)):
+                    gv[rnd.randrange(n), rnd.randrange(3) if rnd.random() < 0.7 else slice(None)] = rnd.choice([float("nan"), float("inf"), float("-inf")])
+            desc["gv"] = gv.tolist()
+            if route == "fight" and rnd.random() < 0.5:
+                # the same indexer object has competed before, with other grain lists and tolerances
+                pre = []
+                for _ in range(rnd.randint(1, 2)):
+                    o2 = list(range(ngr))
+                    rnd.shuffle(o2)
+                    pre.append({"order": o2[:rnd.randint(1, ngr)] if rnd.random() < 0.4 else o2, "tol": rnd.choice([0.02, 0.1, 0.25, 0.5])})
+                desc["fight_pre"] = pre
+                if rnd.random() < 0.6:
+                    desc["order"] = order[:rnd.randint(1, ngr)]    # grains were removed before the last call
         return desc
 
     def describe(self, desc):
@@ -231,6 +251,8 @@ class C07(object):
                 for k2, v2 in m["team_delivered"].items():
                     meas["team_delivered"][k2] = meas["team_delivered"].get(k2, 0) + v2
         meas["route"] = {desc["route"]: 1}
+        meas["earlier_fights_on_the_same_indexer"] = len(desc.get("fight_pre", []))
+        meas["non_finite_gvector_rows"] = int((~np.isfinite(np.array(desc["gv"], float).reshape(-1, 3))).any(axis=1).sum()) if "gv" in desc else 0
         contested = int((((E < tol * tol) & (E < init)).sum(axis=0) >= 2).sum()) if E.size else 0
         meas["contested_peaks"] = contested
         meas["peaks_beyond_one_chunk"] = 1 if n > 4096 else 0
@@ -283,8 +305,13 @@ class C07(object):
         viol = None
         with contextlib.redirect_stdout(io.StringIO()):
             ix = indexing.indexer(gv=gv, hkl_tol=tol)
-            ix.ubis = [ubis[gi] for gi in desc["order"]]
             try:
+                for pre in desc.get("fight_pre", []):
+                    ix.ubis = [ubis[gi] for gi in pre["order"]]
+                    ix.hkl_tol = pre["tol"]
+                    ix.fight_over_peaks()
+                ix.ubis = [ubis[gi] for gi in desc["order"]]
+                ix.hkl_tol = tol
                 ix.fight_over_peaks()
             except Exception as e:
                 viol = {"class": "raises", "key": desc["entry"] + ":raises",
@@ -299,13 +326,22 @@ class C07(object):
         lab = np.asarray(ix.ga)
         # labels index the presented order
         order = desc["order"]
+        if n and (lab >= len(order)).any():
+            k = int(np.argmax(lab >= len(order)))
+            viol = {"class": "label-not-a-grain", "key": desc["entry"] + ":label-not-a-grain",
+                    "detail": "peak %d carries label %d, the list presented has %d grains (%d earlier calls on this indexer)" %
+                              (k, int(lab[k]), len(order), len(desc.get("fight_pre", [])))}
+            lab = np.where(lab >= len(order), -1, lab)
         lab_idx = np.array([order[l] if l >= 0 else -1 for l in lab], int) if n else np.zeros(0, int)
         gas = np.asarray(ix.gas)
         want = np.bincount(lab[lab >= 0], minlength=len(order)) if n else np.zeros(len(order), int)
-        if len(gas) != len(order) or (gas != want).any():
+        if viol is None and (len(gas) != len(order) or (gas != want).any()):
             viol = {"class": "gas-not-histogram", "key": desc["entry"] + ":gas-not-histogram",
                     "detail": "per-grain counts %s are not the histogram of the labels %s" % (gas.tolist()[:10], want.tolist()[:10])}
         E = np.array([errs(u, gv) for u in ubis]) if ubis else np.zeros((0, n))
+        for gi in range(len(ubis)):
+            if gi not in order:
+                E[gi] = np.inf      # not presented in the last call
         return self._finish(desc, E, tol, 2.0, lab_idx, np.asarray(ix.drlv2), None, None, [st], viol, (gas,))
 
     def exec_assign(self, desc, ctx):
@@ -354,11 +390,27 @@ class C07(object):
             rg.scandata["s"] = cf
             rg.grainnames = list(range(ngr))
             # grains are presented in the seeded order: grain name j is grain order[j]
+            ah = desc.get("assign_history")
+            ga = np.random.default_rng(ah["seed"]) if ah else None
             for j, gi in enumerate(order):
-                rg.ubisread[j] = ubis[gi]
+                u0 = ubis[gi]
+                if ah:
+                    # what was read from the ubi file; the grains are refined to ubis[gi] before the last assignment
+                    u0 = u0 @ (np.eye(3) + ga.normal(0, 5e-3, (3, 3))) if ah["kind"] == "perturbed" else \
+                        np.diag(ga.uniform(3, 8, 3)) @ rot(ga).T
+                    if np.linalg.det(u0) < 0:
+                        u0 = u0 * np.array([[-1.0], [1.0], [1.0]])
+                rg.ubisread[j] = np.ascontiguousarray(u0)
                 rg.translationsread[j] = trans[gi]
             rg.generate_grains()
             rg.assignlabels(quiet=True)
+            if ah:
+                for j, gi in enumerate(order):
+                    if ah["how"] == "set_ubi":
+                        rg.grains[(j, "s")].set_ubi(ubis[gi])
+                    else:
+                        rg.grains[(j, "s")] = grain.grain(ubis[gi], translation=trans[gi])
+                rg.assignlabels(quiet=True)
         st = sim.stats()
         lab = np.asarray(rg.scandata["s"].labels).astype(int)
         drl = np.asarray(rg.scandata["s"].drlv2)
@@ -384,6 +436,7 @@ class C07(object):
                     "detail": "assignlabels: peak %d stores error %.12g, minimum over grains is %.12g" % (k, drl[k], mbest[k])}
         meas = enginea.run_measures(st, cfg)
         meas["route"] = {"assign": 1}
+        meas["assignments_after_the_grains_moved"] = 1 if desc.get("assign_history") else 0
         contested = int((((E < tol * tol) & (E < 1.0)).sum(axis=0) >= 2).sum()) if E.size else 0
         meas["contested_peaks"] = contested
         meas["peaks_beyond_one_chunk"] = 1 if n > 4096 else 0
